@@ -791,6 +791,35 @@ def unwind_pauses(R, ro, rule):
                             "a waiting task below an executing one (it awaits the task that made the synchronous call we are unwinding from) still has its contexts "
                             "paused: its saved values are written back underneath the running task's own overrides - the running task reads the outer value inside "
                             "its own with-block - and the task is resumed again when the loop waiting for it goes on", cfg.fmt_path(pb) if pb else None)
+                if run_succ and rev:
+                    # every dropped task that is not computed is asked whether it is executing (whatever else is known about it: a
+                    # task without contexts of its own shields the tasks below it just the same)
+                    rtests = [x for x in cfg.nodes if x.kind in ("test", "stmt") and x.ast is not n.ast and any(x.ast is y or x.stmt is y for y in ast.walk(n.ast))
+                              and any(isinstance(a_, ast.Attribute) and a_.attr == "running" and isinstance(a_.value, ast.Name) and a_.value.id in aliases
+                                      for e_ in kit.node_exprs(x) for a_ in ast.walk(e_))]
+
+                    fl_names = set(t.id for x in ast.walk(d.node) if isinstance(x, ast.Assign) and isinstance(x.value, ast.Constant) and isinstance(x.value.value, bool)
+                                   for t in x.targets if isinstance(t, ast.Name))
+
+                    def task_side(e, aliases=aliases, fl_names=fl_names):
+                        nd = cfg.nodes[e.src]
+                        if nd.kind != "test":
+                            return True
+                        k_, s_, pos_ = q.atom_test(nd.ast)
+                        if k_ == "truth" and s_ in fl_names:
+                            # an executing task has been passed already: nothing more to find out
+                            return e.label == ("F" if pos_ else "T")
+                        if k_ == "isinstance" and s_[0] in aliases and s_[1].split(".")[-1] == "AsyncTask":
+                            return e.label == ("T" if pos_ else "F")
+                        if k_ == "call" and isinstance(s_, str) and s_.endswith(".is_computed") and s_.split(".")[0] in aliases:
+                            return e.label == ("F" if pos_ else "T")
+                        return True
+                    pm = cfg.find_path(head_starts, [n], N, cut_nodes=rtests, keep_edge=task_side)
+                    R.check(pm is None, rule, d.qualname + ":asks-running:" + str(lower), R.site(d, c),
+                            "every dropped task that is not computed is asked whether it is executing",
+                            "an uncomputed task among the dropped entries can be passed without being asked whether it is executing (e.g. because it has no "
+                            "contexts of its own): the tasks below an executing task are then not recognised as waiting for it and have their contexts paused "
+                            "while the only task they await is running", cfg.fmt_path(pm) if pm else None)
                 pr = kit.path_avoiding_guard(cfg, cn, not_running, N)
                 R.check(pr is None, rule, d.qualname + ":not-running:" + str(lower), R.site(d, c),
                         "a task that is executing at that moment keeps its contexts",
@@ -1330,3 +1359,171 @@ def iterates_items(fn_node, it, field="self.items"):
             if q.src(v) in ("list(%s)" % field, "%s[:]" % field, "tuple(%s)" % field):
                 return True
     return False
+
+
+def _runs_user_hook(R, ro, fi, _seen=None, hooks=None):
+    """Nodes of fi (a TaskScheduler method) at which a user hook of a batch can run: a direct call of a documented
+    batch hook on some object, or a call of a sibling method that (transitively) contains one."""
+    hooks = set(hooks or DOCUMENTED_HOOKS["batching.BatchBase"])
+    seen = _seen if _seen is not None else set()
+    seen.add(fi.qualname)
+    out = []
+    cfg = cfg_of(fi)
+    by_name = dict((m.name, m) for m in ro.ts_methods())
+    for n in cfg.nodes:
+        for c in kit.node_calls(n):
+            recv, attr = q.attr_call(c)
+            if attr in hooks and recv is not None and q.src(recv) not in ("self", "stdout", "stderr", "sys.stdout", "sys.stderr"):
+                out.append(n)
+            elif attr in by_name and recv is not None and q.src(recv) == "self" and by_name[attr].qualname not in seen:
+                if _runs_user_hook(R, ro, by_name[attr], seen, hooks):
+                    out.append(n)
+    return out
+
+
+def pending_removal_tolerant(R, ro, rule):
+    """A user hook that runs while the scheduler selects a batch (get_priority) may make a synchronous asynq call;
+    that nested computation ends while the task stack is empty and wait_for() then replaces the pending-batch
+    collection.  Taking the selected batch out of the collection afterwards must therefore tolerate its absence."""
+    bf = ro.batches_field()
+    n_sites = 0
+    hier = ExcHierarchy(R.repo)
+    for m in ro.ts_methods():
+        cfg = cfg_of(m)
+        sites = kit.call_sites(m, lambda c: q.attr_call(c)[1] in ("remove", "pop") and q.attr_call(c)[0] is not None and q.src(q.attr_call(c)[0]) == "self." + bf)
+        if not sites:
+            continue
+        hook_nodes = _runs_user_hook(R, ro, m)
+        for n, c in sites:
+            n_sites += 1
+            shielded = any(kit.handler_covers(h, "KeyError", hier) for t in kit.enclosing_try_handlers(c) for h in t.handlers)
+            arg = q.src(c.args[0]) if c.args else None
+
+            def member(nd):
+                if nd.kind != "test":
+                    return None
+                k_, s_, pos_ = q.atom_test(nd.ast)
+                if k_ == "in" and s_ == (arg, "self." + bf):
+                    return "T" if pos_ else "F"
+                return None
+            after_hook = hook_nodes and cfg.find_path(hook_nodes, [n], N, include_source_check=False) is not None
+            unguarded = after_hook and not shielded and kit.path_avoiding_guard(cfg, [n], member, N, sources=hook_nodes) is not None
+            R.check(not unguarded, rule, "%s:%s" % (m.qualname, q.stmt_key(c)), R.site(m, c),
+                    "self.%s.%s(...) is not reached after a user hook ran, or tolerates a missing element" % (bf, q.attr_call(c)[1]),
+                    "self.%s.%s(%s) requires the element to be present although a user hook (get_priority) ran since it was known to be: a hook that makes a "
+                    "synchronous asynq call ends a nested computation on the empty stack, wait_for() replaces self.%s, and KeyError escapes from the "
+                    "computation (set.discard tolerates it)" % (bf, q.attr_call(c)[1], arg, bf))
+    discards = sum(len(kit.call_sites(m, lambda c: q.attr_call(c)[1] == "discard" and q.attr_call(c)[0] is not None and q.src(q.attr_call(c)[0]) == "self." + bf))
+                   for m in ro.ts_methods())
+    R.check(n_sites + discards >= 1, rule, "TaskScheduler:takes-selected-out", R.site(ro.flush_one_method()),
+            "the selected batch is taken out of self.%s (%d tolerant, %d checked removals)" % (bf, discards, n_sites),
+            "no removal from self.%s found: the selected batch stays pending" % bf)
+
+
+# calls through which the scheduler runs user code that may make a synchronous asynq call: task bodies, value providers,
+# flush bodies, context hooks
+USER_CODE_RUNNERS = ("_compute", "_continue", "_pause_contexts", "_resume_contexts", "flush", "get_priority")
+
+
+def pop_after_user_code(R, ro, rule):
+    """User code that the scheduler runs can make a synchronous asynq call; when that call hits the stack limit the
+    limit branch empties the task stack.  A pop that follows such a call must first look at the stack (is there
+    an entry, is it still mine): otherwise 'pop from empty list' escapes instead of the RuntimeError being delivered."""
+    sf = ro.stack_field()
+    n_sites = 0
+    for m in ro.ts_methods():
+        cfg = cfg_of(m)
+        pops = kit.call_sites(m, lambda c: q.attr_call(c)[1] == "pop" and q.attr_call(c)[0] is not None and q.src(q.attr_call(c)[0]) == "self." + sf)
+        if not pops:
+            continue
+        runners = _runs_user_hook(R, ro, m, hooks=USER_CODE_RUNNERS)
+
+        len_locals = set()
+        for nm_ in set(t_.id for a_ in ast.walk(m.node) if isinstance(a_, ast.Assign) for t_ in a_.targets if isinstance(t_, ast.Name)):
+            vals_ = assigned_values(m.node, nm_)
+            if vals_ and all(k_ == "expr" and q.src(v_) == "len(self.%s)" % sf for k_, v_ in vals_):
+                len_locals.add(nm_)
+
+        def looked(nd, len_locals=len_locals):
+            if nd.kind != "test":
+                return None
+            k_, s_, pos_ = q.atom_test(nd.ast)
+            if k_ == "truth" and s_ == "self." + sf:
+                return "T" if pos_ else "F"
+            if k_ == "lt" and isinstance(s_, tuple) and (s_[1] == "len(self.%s)" % sf or s_[1] in len_locals):
+                return "T" if pos_ else "F"         # something < len(stack)
+            return None
+        for n, c in pops:
+            n_sites += 1
+            src_ = [r for r in runners if r is not n]
+            p = kit.path_avoiding_guard(cfg, [n], looked, N, sources=src_) if src_ and cfg.find_path(src_, [n], N, include_source_check=False) else None
+            # (the search starts at the runner node itself: step off it first)
+            R.check(p is None, rule, "%s:%s" % (m.qualname, q.stmt_key(c)), R.site(m, c),
+                    "self.%s.pop() is reached from user code run by the scheduler only after looking at the stack" % sf,
+                    "self.%s.pop() follows a call that runs user code (a value provider, a context hook) without looking at the stack again: a synchronous "
+                    "asynq call made there that hits the stack limit empties the stack, and IndexError 'pop from empty list' escapes from the scheduler "
+                    "instead of the RuntimeError reaching the awaiting task" % sf, cfg.fmt_path(p) if p else None)
+    R.check(n_sites >= 2, rule, "TaskScheduler:pops", R.site(ro.drain_method()), "%d pops of the task stack examined" % n_sites, "fewer than two pops of the task stack found")
+
+
+def call_with_context_rule(R, rule):
+    """call_with_context(context, fn, ...) is `with context: fn(...)` for a task: the call of fn.asynq - which for an
+    @async_proxy function, a patched function or a decorator built with make_async_decorator runs the function's synchronous
+    part - happens inside the with-block, like the sequential reading says, not before the context is entered."""
+    f = R.repo.fn("tools.call_with_context")
+    ps = q.param_names(f.node)
+    ctx, fn = ps[0], ps[1]
+    withs = [w for w in ast.walk(f.node) if isinstance(w, ast.With) and any(q.src(i.context_expr) == ctx for i in w.items)]
+    calls = [c for c in q.calls(f.node) if q.attr_call(c)[1] in ("asynq", "asyncio") and q.attr_call(c)[0] is not None and q.src(q.attr_call(c)[0]) == fn
+             or q.call_name(c) == fn]
+    inside = [c for c in calls if any(any(c is x for x in ast.walk(w)) for w in withs)]
+    R.check(bool(withs) and bool(calls) and len(inside) == len(calls), rule, f.qualname, R.site(f, (calls or [f.node])[0]),
+            "%s.asynq(...) is called inside `with %s:`" % (fn, ctx),
+            "%s is called %s: the part of the function that runs at call time (an @async_proxy function choosing which task to return, a patched "
+            "function, a decorator wrapper) does not see what the context establishes, although the sequential reading `with context: fn(...)` does"
+            % (fn, "outside the `with %s:` block" % ctx if withs else "without entering the context at all"))
+
+
+def scheduler_lookup_fresh(R, rule):
+    """The scheduler belongs to the thread (and is replaced by scheduler.reset()): whoever needs it asks get_scheduler() at
+    that moment.  A scheduler kept in a module global, a class attribute or an instance field is some other thread's - or a
+    discarded - scheduler later on: its flush events, its stack and its active task are not the current computation's."""
+    n = 0
+    for f in R.repo.all_functions():
+        if f.module.name.startswith("tests"):
+            continue
+        globs = set(nm for st in ast.walk(f.node) if isinstance(st, (ast.Global, ast.Nonlocal)) for nm in st.names)
+        for c in q.calls(f.node):
+            nm = q.call_name(c) or ""
+            if nm.split(".")[-1] == "get_scheduler":
+                n += 1
+                st = q.enclosing_stmt(c)
+                kept = None
+                if isinstance(st, ast.Assign) and st.value is c:
+                    for t in st.targets:
+                        if isinstance(t, ast.Attribute):
+                            kept = q.src(t)
+                        elif isinstance(t, ast.Name) and t.id in globs:
+                            kept = "the global " + t.id
+                R.check(kept is None, rule, "%s:%s" % (f.qualname, q.stmt_key(c)[:40]), R.site(f, c),
+                        "the scheduler obtained here is used on the spot", "the scheduler returned by get_scheduler() is kept in %s: later computations - on "
+                        "another thread, or after scheduler.reset() - are run by that scheduler instead of the current one (its flush events fire, "
+                        "the thread's own scheduler sees nothing)" % kept)
+            recv, attr = q.attr_call(c)
+            if attr == "wait_for" and recv is not None and q.src(recv) != "self":
+                n += 1
+                ok = isinstance(recv, ast.Call) and (q.call_name(recv) or "").split(".")[-1] == "get_scheduler"
+                if isinstance(recv, ast.Name) and recv.id not in globs:
+                    vals = assigned_values(f.node, recv.id)
+                    ok = bool(vals) and all(k == "expr" and isinstance(v, ast.Call) and (q.call_name(v) or "").split(".")[-1] == "get_scheduler" for k, v in vals)
+                R.check(ok, rule, "%s:%s" % (f.qualname, q.stmt_key(c)[:40]), R.site(f, c),
+                        "wait_for() is called on the scheduler get_scheduler() returns at that moment",
+                        "wait_for() is called on `%s`, which is not the result of a get_scheduler() call made here: a scheduler looked up earlier (cached in "
+                        "a global, stored on the task when it was created) is another thread's or a discarded one" % q.src(recv))
+    for mod in R.repo.modules.values():
+        if mod.name.startswith("tests"):
+            continue
+        for st in mod.tree.body:
+            if isinstance(st, ast.Assign) and isinstance(st.value, ast.Call) and (q.call_name(st.value) or "").split(".")[-1] == "get_scheduler":
+                R.violation(rule, "%s:module-level" % mod.name, R.site(mod, st), "the module keeps the scheduler of the importing thread in `%s`" % q.src(st.targets[0]))
+    R.check(n >= 2, rule, "lookups", "asynq/", "%d scheduler lookups / wait_for calls examined" % n, "fewer than two scheduler lookups found")
